@@ -199,7 +199,7 @@ Ltac py_unfold_hook ::= autounfold with wk_model.
 Lemma stop_clear_spec n tgt ini fin h f s nm :
   call_method program (2 + n) (tc tgt ini fin h (ev f s) nm) "_stop_clear" [] =
   PyLite.Ok (PNone, tc tgt ini fin h (ev false s) nm).
-Proof. pystart. timeout 120 pyrun. Qed.
+Proof. pystart. timeout 600 pyrun. Qed.
 Ltac py_unfold_hook ::= idtac.
 
 Lemma line_CS2 n tgt ini fin nm sc f h orphan last bad :
